@@ -1,6 +1,7 @@
 mod util;
 mod bddprops;
 mod formula;
+mod parse;
 mod watchdog;
 
 use std::io::Write;
@@ -26,6 +27,8 @@ fn main() {
         "C01" => formula::c01(&mut out, tier, &mut rng, &mut st),
         "C06" => formula::c06(&mut out, tier, &mut rng, &mut st),
         "C09" => formula::c09(&mut out, tier, &mut rng, &mut st),
+        "C08" => parse::c08(&mut out, tier, &mut rng, &mut st),
+        "C12" => parse::c12(&mut out, tier, &mut rng, &mut st),
         "C02" => bddprops::c02(&mut out, tier, &mut rng, &mut st),
         "C03" => bddprops::c03(&mut out, tier, &mut rng, &mut st),
         "C04" => bddprops::c04(&mut out, tier, &mut rng, &mut st),
